@@ -125,6 +125,19 @@ def b_user(fn_name):
   return body
 
 
+def b_probe_then_call():
+  """The documented probe for a singleton that does not exist yet (ValueError), after which the thread carries on."""
+  try:
+    gin.config.singleton_value('c18_not_constructed_yet')
+  except ValueError:
+    pass
+  try:
+    gin.config.singleton_value('c18_bad_constructor', 'not callable')
+  except ValueError:
+    pass
+  return ('f', F())
+
+
 HARNESSES = {
     'H1_scoped_calls+reader': lambda: [b_scoped('sa'), b_scoped('sb'), b_reader],
     'H2_same_key_diff_args+reader': lambda: [b_f(), b_f(1), b_reader],
@@ -133,14 +146,15 @@ HARNESSES = {
     'H5_singleton+reader': lambda: [b_user('USER'), b_reader],
     'H6_three_users_same_singleton': lambda: [b_user('USER'), b_user('USER1B'), b_user('USER')],
     'H7_falsy_singleton': lambda: [b_user('USER3'), b_user('USER3B')],
+    'H8_failed_singleton_probe+user': lambda: [b_probe_then_call, b_user('USER')],
 }
 
 
 def bound(tier):
   if tier == 'quick':
-    return ('threads: 7 harnesses (2-3 threads), all schedules with <=1 preemption at shared-state granularity plus <=3 (2 threads) / '
+    return ('threads: 8 harnesses (2-3 threads), all schedules with <=1 preemption at shared-state granularity plus <=3 (2 threads) / '
             '<=2 (3 threads) preemptions at points inside the code that touches the store concerned; sequential depth 4')
-  return ('threads: 6 harnesses, all schedules with <=2 preemptions at shared-state granularity and <=1 at '
+  return ('threads: 8 harnesses, all schedules with <=2 preemptions at shared-state granularity and <=1 at '
           'all-gin-lines granularity; sequential depth 6')
 
 
